@@ -161,34 +161,37 @@ def run_unit(u, scratch, tier="quick", use_cache=True, keep=False):
         cmd += ["--unwindset", ",".join(uws + lib)]
     cmd += u.extra_cbmc
     res["checker_cmd"] = " ".join(c if c != cur else "<unit>.gb" for c in cmd)
-    rc, out, err, wall = sh(cmd, timeout, mem_gb=u.mem)
+    # main pass in TEXT mode: with --json-ui cbmc builds a trace for every failed assertion (the VF_COVER goals fail by design), which can exhaust memory
+    tcmd = [c for c in cmd if c != "--json-ui"]
+    rc, out, err, wall = sh(tcmd, timeout, mem_gb=u.mem)
     res["solver_s"] = round(wall, 2)
     if rc == -9:
         res["reason"] = "timeout after %ds" % timeout
         return _finish(res, t0, work, keep)
-    try:
-        js = json.loads(out)
-    except Exception:
-        res["reason"] = "cbmc output not JSON (rc=%d): %s" % (rc, (err + out)[-1500:])
+    if "out of memory" in (out + err).lower():
+        res["reason"] = "cbmc ran out of memory: " + " | ".join(l for l in (out + err).split("\n") if "memory" in l.lower())[:300]
         return _finish(res, t0, work, keep)
-    results = None
-    msgs = []
-    for o in js:
-        if isinstance(o, dict):
-            if "result" in o:
-                results = o["result"]
-            if o.get("messageType") in ("ERROR", "WARNING"):
-                msgs.append(o.get("messageText", ""))
-    errs = [m for o in js if isinstance(o, dict) and o.get("messageType") == "ERROR" for m in [o.get("messageText", "")]]
-    if any("memory" in e.lower() for e in errs):
-        res["reason"] = "cbmc ran out of memory: " + " | ".join(errs)[:300]
+    if "** Results:" not in out:
+        res["reason"] = "cbmc gave no result list (rc=%d): %s" % (rc, (err + out)[-1500:])
         return _finish(res, t0, work, keep)
-    if results is None:
-        res["reason"] = "cbmc gave no result list (rc=%d): %s" % (rc, " | ".join(msgs)[-1500:])
-        return _finish(res, t0, work, keep)
-    if any("ignoring" in m and "forall" in m for m in msgs):
+    if "ignoring" in out and "forall" in out:
         res["reason"] = "quantifier ignored by back end"
         return _finish(res, t0, work, keep)
+    results = []
+    cur_file, cur_fn = "", ""
+    for line in out[out.index("** Results:"):].split("\n"):
+        m = re.match(r"^(\S.*) function (\S+)$", line)
+        if m and not line.startswith("["):
+            cur_file, cur_fn = m.group(1), m.group(2)
+            continue
+        m = re.match(r"^\[(\S+)\] (?:line (\d+) )?(.*): (SUCCESS|FAILURE|UNKNOWN|ERROR)$", line)
+        if m:
+            f_ = cur_file
+            if re.match(r"^\[\S+\] file (\S+) line", line):
+                mm = re.match(r"^\[(\S+)\] file (\S+) line (\d+) (.*): (SUCCESS|FAILURE|UNKNOWN|ERROR)$", line)
+                results.append({"property": mm.group(1), "description": mm.group(4), "status": mm.group(5), "sourceLocation": {"file": mm.group(2), "line": mm.group(3), "function": ""}})
+                continue
+            results.append({"property": m.group(1), "description": m.group(3), "status": m.group(4), "sourceLocation": {"file": f_, "line": m.group(2) or 0, "function": cur_fn}})
     obs = []
     for r in results:
         loc = r.get("sourceLocation", {}) or {}
